@@ -576,9 +576,12 @@ func C10(p *an.Prog, r *an.Report) {
 		}
 	}
 	r.Analysed["codes_compared"] = codes
-	r.Floor("sig_size_lookups", len(byClass["sig"]), 4)
-	r.Floor("signing_pubkey_size_lookups", len(byClass["spk"]), 4)
-	r.Floor("crypto_pubkey_size_lookups", len(byClass["cpk"]), 3)
+	// the lookups confirmed on the pinned tree are the reference: a lookup that can no longer be
+	// extracted (rewritten in a form the evaluator does not read) must not silently leave the
+	// comparison
+	r.Floor("sig_size_lookups", len(byClass["sig"]), 8)
+	r.Floor("signing_pubkey_size_lookups", len(byClass["spk"]), 7)
+	r.Floor("crypto_pubkey_size_lookups", len(byClass["cpk"]), 6)
 	c10TypeValidators(p, r)
 	c10PrivateColumns(p, r, "C10.T4")
 	c10Constructed(p, r)
